@@ -204,6 +204,23 @@ def run(chk):
                 chk.violation('the code lists recovered from a client hello differ from the encoded ones: implementation %s, specification %s' % (i[:160], m[:160]),
                               {'cmd': l, 'impl': i, 'spec': m, 'kind': 'hello'}, None, True)
         chk.coverage['hello_code_lists'] = len(dec)
+        # single-valued code fields: a server hello and a hello retry request carrying every compression method code of the
+        # table and suites of the table; the message the implementation composes is the specification's, and the implementation
+        # parses it back to the same members (the encoder command compares field by field: RoundTripError otherwise)
+        single = []
+        suites = tlsgen.codes_of('TlsCipherSuiteFactory')
+        for comp in tlsgen.codes_of('TlsCompressionMethodFactory'):
+            for suite in chk.rng.sample(suites, 3 if chk.tier == 'quick' else 40):
+                for cmd in ('shenc', 'hrrenc'):
+                    single.append('%s %d %s %s %d %d -' % (cmd, chk.rng.choice([0x0301, 0x0303, 0x0304]), '%064x' % chk.rng.getrandbits(256),
+                                                         chk.rng.choice(['-', '%064x' % chk.rng.getrandbits(256)]), suite, comp))
+        for l, m in zip(single, common.run_model(single)):
+            i = impl.impl_line(l)
+            if m != i and nv < 10:
+                nv += 1
+                chk.violation('a hello carrying a known compression method / cipher suite code is not composed as specified or not parsed back to the '
+                              'same members: "%s" implementation %s, specification %s' % (l[:100], i[:80], m[:80]), {'cmd': l, 'impl': i, 'spec': m, 'kind': 'hello-single'}, None, True)
+        chk.coverage['hello_single_codes'] = len(single)
     else:
         chk.violation('model runner does not build: %s' % br.failed_file, {'error': br.error}, None, False)
     chk.coverage['evaluations'] = len(lines)
